@@ -12,10 +12,10 @@ one() {
   if ! git -C $WT apply $D 2>/dev/null && ! (cd $WT && patch -p1 -s < $D >/dev/null 2>&1); then echo "AUDIT $ID $N does-not-apply"; git -C /repo worktree remove --force $WT; return; fi
   if ! (cd $WT && GOFLAGS= go build ./... >/dev/null 2>&1 && cd gcetcbendorsement && GOFLAGS= go build ./... >/dev/null 2>&1); then echo "AUDIT $ID $N does-not-build"; git -C /repo worktree remove --force $WT; return; fi
   OUT=$(GOFLAGS=-mod=mod VERIF_REPO=$WT python3 run.py $ID quick 2>&1); RC=$?
-  echo "AUDIT $ID $N rc=$RC $(echo "$OUT" | grep -m1 -o 'key=[^ ]*')"
+  echo "AUDIT $ID $N rc=$RC $(echo "$OUT" | grep -m1 -A1 VIOLATION | grep -o 'key=[^ ]*' | head -1)"
   git -C /repo worktree remove --force $WT
   H=$(python3 -c "import hashlib,os;print(hashlib.sha256(os.path.abspath('$WT').encode()).hexdigest()[:12])")
   rm -f .work/bin/*.$H.test .work/bin/*.$H.race.test .work/alt-$H.mod .work/alt-$H.sum
 }
 export -f one
-for ID in $IDS; do for D in audit_mutants/$ID/*.diff; do echo "$ID $D"; done; done | xargs -P 6 -L 1 bash -c 'one $0 $1'
+for ID in $IDS; do for D in /verif/audit_mutants/$ID/*.diff; do echo "$ID $D"; done; done | xargs -P 6 -L 1 bash -c 'one $0 $1'
